@@ -102,10 +102,11 @@ CLAIMS = {
         tech="Lean 4 proof (invariant by induction over operation histories) + identity-level differential correspondence"),
     'C16': dict(
         text="LIST equalities (order and multiplicity) c16_unnest_pair, c16_unnest_elem, c16_unnest_parent_cond, "
-             "c16_unnest_elem_cond, c16_nonempty_singleton: flatten(t) yields one row per inner element, correlated with its parent, "
+             "c16_unnest_elem_cond, c16_unnest_both_cond (and_ of a parent condition and an element condition), "
+             "c16_unnest_elem_vs_parent (the element compared with an expression over its OWN parent), c16_nonempty_singleton: flatten(t) yields one row per inner element, correlated with its parent, "
              "with/without conditions on parent or element, parent selected or not; proved for an arbitrary World. Correspondence: "
              "parents with empty/overlapping/scalar/repeated/falsy inner values, every selection and condition shape incl. and_/or_.",
-        note=BASE_NOTE + "Conjunctions/disjunctions of conditions are covered by correspondence. With caching enabled a condition on "
+        note=BASE_NOTE + "Disjunctions and other combinations of conditions are covered by correspondence. With caching enabled a condition on "
              "the flattened element is subject to known finding C05-F2 (cache keyed on variables only).",
         tech="Lean 4 proof (list equalities by unfolding the evaluator + cond_dist) + differential correspondence"),
     'C17': dict(
@@ -159,13 +160,18 @@ CLAIMS = {
              "fireRule, any nesting of refinements and alternatives). c12_build_expected: the transliterated imperative "
              "construction (refineAt / altAt with climb-while-left-operand, buildKids) yields exactly the prescribed tree for EVERY "
              "surface program (induction over the program with a path/zipper invariant), hence c12_build_fire: the constructed "
-             "tree selects the ripple-down conclusion. RulesExt.lean: rule trees in which a refinement introduces a further "
+             "tree selects the ripple-down conclusion. C12Rows.lean, ANY number of variables: rtree_sound_complete (every output "
+             "of evalR speaks for exactly the admissible assignments extending it, true outputs bind every variable, every "
+             "admissible assignment is covered), c12_rule_tree_rows_multi (the instances are exactly the (conclusion, argument "
+             "values) of the assignments on which the tree selects a conclusion) and c12_program_rows: for every surface program "
+             "whose base rule and chain alternatives mention every variable (refinements: any subset, any nesting) the instances "
+             "yielded from the tree THE CONSTRUCTION builds are exactly those fireRule prescribes. RulesExt.lean: rule trees in which a refinement introduces a further "
              "variable (conclusions over different variable sets): ruleRowsA, the ripple-down reading over partial bindings "
              "fireExtRule, and fireExtRule_closed (on programs whose conditions mention bound variables only it IS fireRule). "
              "Tree-shape correspondence with the real tree on every run; the multiset of instances YIELDED and of instances "
              "CONSTRUCTED by each evaluation vs the reference, 30% of the trees after an abandoned evaluation.",
-        note=BASE_NOTE + "Branch-closed conditions, one Add per branch; rows theorem for single-variable rules (multi-variable rules by "
-             "correspondence). A refinement that introduces a variable is decided by correspondence against the executable "
+        note=BASE_NOTE + "Branch-closed conditions (uniform disjunctions), one Add per branch; list-level rows theorem for single-variable "
+             "rules, set-level for any number of variables. A refinement that introduces a variable is decided by correspondence against the executable "
              "reference fireExtRule (one such block per tree, written as the first refinement on its path, refinements only below "
              "it: elsewhere C12 leaves open whether a block that does not mention the new variable fires once per base match or once "
              "per value). With caching enabled re-evaluation of trees with alternatives is known finding C05-F4.",
